@@ -39,6 +39,8 @@ EXPLANATION_ADDED = (" (R3 also) image-frame lines are read through the pixel br
 EXPLANATION += EXPLANATION_ADDED
 EXPLANATION_ADDED2 = (' (R14, deep tier) grammar enumeration: every document of at most four lines over an 11-line CRTF grammar (header, global lines, comments, ann / sign prefixes, shapes with and without inline metadata, a malformed line; 16104 documents) is pushed through the partially evaluated document parser and compared with a state-machine oracle (global dictionary in force, per-shape overrides, include/annotation flags, error mode).')
 EXPLANATION += EXPLANATION_ADDED2
+EXPLANATION_ADDED3 = (' (R9 also) a text region with a label of its own (different from its text) is written with that label: the writer, evaluated on a TextSkyRegion with constant text and label, must emit label=...')
+EXPLANATION += EXPLANATION_ADDED3
 TRUSTED = ['the reader\'s regexes, applied to the constant line template, return the bracketed pairs / trailing lengths in order '
            '(stdlib re on constants from the source)', 'Quantity.to(unit).value', 'frame_transform_graph.get_names() maps astropy '
            'frame names to themselves']
@@ -116,7 +118,7 @@ def _classes(model):
     return out
 
 
-def eval_writer(model, ci, coordsys, meta=None, visual=None, radunit=None):
+def eval_writer(model, ci, coordsys, meta=None, visual=None, radunit=None, text=None):
     from ..vg import reset_marks
     reset_marks()
     ser = model.registered('serialize', 'crtf')
@@ -125,7 +127,7 @@ def eval_writer(model, ci, coordsys, meta=None, visual=None, radunit=None):
     s.fields['meta'] = DictV([dict(meta if meta is not None else {'include': Obj('flag', {}, 'INC')})])
     s.fields['visual'] = DictV([dict(visual or {})])
     if 'text' in model.params_of(ci):
-        s.fields['text'] = Obj('str', {}, 'region.text')
+        s.fields['text'] = Obj('str', {}, 'region.text') if text is None else Const(text)
     for p in model.params_of(ci):
         k = model.descriptor_kind(ci, p)
         if k in ('PositiveScalarAngle', 'ScalarAngle'):
@@ -865,6 +867,31 @@ def r9(ctx):
         else:
             ctx.bad('label', 'binding', f'the parsed label reaches the region as {show(got, 80)} (meta {show(md, 200)})',
                     'regions/io/crtf/read.py')
+    # (a') a text region may carry a label of its own, different from its text: it must be written too (the reader keeps
+    # both; a writer that drops it makes parse -> serialise -> parse lose the label, the second parse filling it with the text)
+    try:
+        ser_t, ev_t, out_t = eval_writer(m, m.cls('TextSkyRegion'), 'fk5', meta={'label': Const(L)}, text='abc')
+        mt = _meta_text_of(ctx, out_t, 'label', {})
+        if mt is None:
+            # with a constant label and text the writer's value may be the finished text itself
+            for pc_, v_ in out_t.returns:
+                txt_ = v_.v if isinstance(v_, Const) and isinstance(v_.v, str) else None
+                if txt_ is None:
+                    try:
+                        txt_ = _render(v_, {})
+                    except AnalysisError:
+                        txt_ = None
+                if txt_ and 'label=' in txt_:
+                    mt = txt_.strip().splitlines()[-1]
+    except AnalysisError as exc:
+        raise AnalysisError('C11.R9', 'text region with a label', f'writer not reducible: {exc}')
+    if mt is None or L not in mt:
+        ctx.bad('text region with a label', 'writer-drops',
+                'the line written for a text region whose meta has a label (different from its text) carries no label=...: '
+                'text[[..], \'abc\'], label=\'L\' is read with label L, written without it, and read again with label abc',
+                f.loc())
+    else:
+        ctx.ok('text region with a label', f'`{mt}` is written next to the text')
     # (b) text of a text region: the whole line is the region, the quoted text is the last bracket entry
     # the reader statement that takes the text out of the last bracket entry
     rp = m.cls('_CRTFRegionParser')
